@@ -268,6 +268,26 @@ static int func_cb(cfg_t *cfg, cfg_opt_t *opt, int argc, const char **argv)
 	return 0;
 }
 
+// nest(handle, text): a function whose callback parses <text> into another live context while the outer parse is under way
+static cfg_t *hcfg(long id);
+static int nest_cb(cfg_t *cfg, cfg_opt_t *opt, int argc, const char **argv)
+{
+	string a = ",\"argv\":[";
+	for (int i = 0; i < argc; i++)
+		a += (i ? "," : "") + jstr(argv[i]);
+	a += "]";
+	cb_tick("func", opt, a);
+	if (argc == 2) {
+		cfg_t *other = hcfg(strtol(argv[0], NULL, 10));
+		if (other && other != cfg) {
+			size_t n0 = g_diag.size();
+			cfg_parse_buf(other, argv[1]);
+			g_diag.resize(n0); // what the other context reports is not a diagnostic of the outer parse
+		}
+	}
+	return 0;
+}
+
 static void print_cb(cfg_opt_t *opt, unsigned int index, FILE *fp) { fprintf(fp, "<%s:%u>", opt->name, index); }
 
 static int filter_cb(cfg_t *cfg, cfg_opt_t *opt)
@@ -625,7 +645,7 @@ static cfg_opt_t *build_opts(long sid)
 				break;
 			case 'F':
 				o.type = CFGT_FUNC;
-				o.func = (def.s == "1") ? cfg_include : func_cb;
+				o.func = (def.s == "1") ? cfg_include : (def.s == "2") ? nest_cb : func_cb;
 				break;
 			}
 			if (cb & 1)
